@@ -424,7 +424,7 @@ class Shaper(object):
 
 
     @staticmethod
-    def _check_correct_output_params(string_output, target_file, to_uml_path):
+    def _check_correct_output_params(string_output, target_file, to_uml_path=None):
         if not string_output and target_file is None and to_uml_path is None:
             raise ValueError("You must provide a target path , set string output to True and/or give a value to to_uml_path")
 
